@@ -2853,6 +2853,16 @@ pub mod verif {
         with_parser(src, |p| p.parse_ws(i, inc_newlines))
     }
 
+    /// As `parse_ws`, also returning by how much the parser's newline counter grew (callers
+    /// compare the counter before and after to learn whether a line end was crossed).
+    pub fn parse_ws_newlines(src: &str, i: usize, inc_newlines: bool) -> (R<usize>, usize) {
+        let mut p = YaccParser::new(YaccKind::Grmtools, src);
+        let r = p.parse_ws(i, inc_newlines).map_err(cvt);
+        let n = p.num_newlines;
+        std::mem::forget(p);
+        (r, n)
+    }
+
     pub fn parse_action(src: &str, i: usize) -> R<usize> {
         with_parser(src, |p| p.parse_action(i).map(|(j, _)| j))
     }
